@@ -311,8 +311,13 @@ def main():
         priv = os.path.join(BUILD, "p2h-%s-%d" % (pid, os.getpid()))
         subprocess.run(["cp", P2H, priv], check=True)
         P2H = priv
+        # ... and of the module file the binary was built with (harnesses that build a race-detector worker at run time)
+        privmod = priv + ".mod"
+        subprocess.run(["cp", os.path.join(BUILD, "harness.mod"), privmod], check=True)
+        subprocess.run(["cp", os.path.join(BUILD, "harness.sum"), priv + ".sum"], check=False)
+        GOENV["P2H_MODFILE"] = privmod
         import atexit
-        atexit.register(lambda: os.path.exists(priv) and os.remove(priv))
+        atexit.register(lambda: [os.remove(f) for f in (priv, privmod, priv + ".sum", priv + "-race") if os.path.exists(f)])
     model_files = cfg.get("model_files", [])
     run_file = cfg.get("run_file")
     infra_failed = [f for f in failed if not f.startswith("Props/") and f not in cfg.get("obligation_files", [])]
